@@ -7,6 +7,7 @@ import Proofs.C08Plain
 import Proofs.C08Order
 import Proofs.C08Syn
 import Proofs.C08Cmp
+import Proofs.C08Build
 /-!
   C08 — a decode value is indistinguishable from its JSON value in read-only jq.
 
@@ -26,7 +27,10 @@ import Proofs.C08Cmp
     (D4) raw bits keep bytes that are not valid UTF-8 under tovalue              — hypotheses RawOK / RawOKDeep
   and except the recorded, undocumented deviations of the code (known_findings.json), each pinned
   here by a witness: string-index-out-of-range, object-key-jqvalue, gojq-minint-length.
-  Hypotheses: NamesDistinct (decode.D.AddChild refuses duplicate field names). Strings are arbitrary
+  Hypotheses: NamesDistinct — discharged for every tree a decoder can build, forced or not, by
+  `addChild_nodup` / `decoder_tree_names_distinct` (model of D.AddChild, Errorf, Fatalf, FieldStruct,
+  Value.Remove: FqModel/JQValueBuild.lean), and shown to be exactly what is needed by
+  `struct_indistinguishable_iff_nodup` (witness: `addChild_errorf_witness`, the seeded S5-C08-1). Strings are arbitrary
   byte strings: Go's `[]rune` / `string(runes)` round trip is proved (Proofs/C08Utf8.lean:
   `decode1_encodeRune`, `chunks_encodeRunes`), no validity assumption.
   Query level, by induction over the 30-construct mini-jq (arbitrary nesting), for all values:
@@ -43,6 +47,11 @@ import Proofs.C08Cmp
                               conditions for the two semantic hypotheses;
     `member_order_witness`, `null_key_witness`, `indistinguishable_spec_needs_known`   each hypothesis is needed.
   No case of the induction failed; nothing new about fq came out of it.
+  Trees as built (both indexes of decode.Compound at every struct, `force`):
+    `addChild_nodup`, `decoder_tree_names_distinct`, `struct_methods_one_tree`, `struct_agrees_of_inv`,
+    `struct_indistinguishable_iff_nodup`, `decoder_root_index`, `decoder_every_struct_agrees`,
+    `errorf_unforced_same`, `addChild_errorf_witness`, `duplicate_name_query_witness`,
+    `sortFields_keeps_members`, `sortFields_drops_duplicate_witness`, `decoder_tree_indistinguishable`.
 -/
 namespace Props.C08
 open FqModel FqModel.JQValue Proofs.C08
@@ -460,6 +469,213 @@ theorem remove_without_delete_witness :
 example : ∃ c, Cmp.run Cmp.remove [.add [97] (.scalar (.uint 1) none true), .add [98] (.scalar (.uint 2) none true),
     .rm [97], .add [97] (.scalar (.uint 3) none true)] Cmp.empty = some c ∧ c.mHas (.str [97]) = .ok (.bool true) :=
   ⟨_, rfl, rfl⟩
+
+/-! ### trees as the decoder builds them: both indexes at EVERY struct, forced and unforced decodes
+
+  FqModel/JQValueBuild.lean: `CT.struct children byName` carries the two indexes of decode.Compound
+  separately at every level; its methods read the index the Go method reads (length / keys / `.[]` /
+  JQValueToGoJQ / tovalue: Children; `.k` / has: ByName). A decoder is a list of decode.D calls (`BOp`:
+  fields read from bits and synthetic, nested structs and arrays, Errorf, Fatalf, a failing assertion, a
+  read beyond the end, Value.Remove, D.Format merging a sub-decoder's members), run with `force` or without; `Report.fatalf` is the AddChild of
+  /repo (decode.go:833-835), `Report.errorf` the seeded variant S5-C08-1. -/
+
+/-- Every tree a decoder builds — any sequence of decode.D calls, nested to any depth, with or without
+    `force`, whether the decoder finished or was stopped (a partial tree) — has, at EVERY struct,
+    pairwise distinct member names, and its ByName looks up exactly its Children. By induction over the
+    sequence of calls (mutual over nested bodies); the step is D.AddChild: a name that is already in
+    ByName ends the decode with Fatalf, which `force` does not switch off. -/
+theorem addChild_nodup (force : Bool) (prog : List BOp) :
+    CT.InvDeep (runDecoder .fatalf force prog).1 :=
+  toCT_inv _ (execList_inv force prog Bld.newStruct inv_newStruct)
+
+/-- … so the hypothesis `NamesDistinct` of the method theorems above holds at every struct of the value
+    the interpreter gets (`CT.toDV`: what the Children-reading methods see) -/
+theorem decoder_tree_names_distinct (force : Bool) (prog : List BOp) :
+    NamesDistinctDeep (runDecoder .fatalf force prog).1.toDV :=
+  namesDistinctDeep_toDV _ (addChild_nodup force prog)
+
+/-- Under the invariant the ByName-reading methods and the Children-reading methods describe ONE tree:
+    each of the seven methods of a value with both indexes is the method of `DV` (one list of members),
+    so `DV` — the type all theorems above quantify over — loses nothing. -/
+theorem struct_methods_one_tree (c : CT) (h : CT.InvRoot c) :
+    c.mLength = c.toDV.mLength ∧ c.mSliceLen = c.toDV.mSliceLen ∧ c.mKeys = c.toDV.mKeys ∧
+    c.mEach = c.toDV.mEach ∧ c.mToGoJQ = c.toDV.mToGoJQ ∧
+    (∀ k, c.mKey k = c.toDV.mKey k) ∧ (∀ key, c.mHas key = c.toDV.mHas key) :=
+  ⟨ct_length_eq c, ct_sliceLen_eq c, ct_keys_eq c, ct_each_eq c, ct_toGoJQ_eq c, ct_key_eq c h, ct_has_eq c h⟩
+
+/-- a struct whose indexes agree answers length, keys, has, `.k`, `.[]` as its tovalue does (D1, D2) -/
+theorem struct_agrees_of_inv (cs bn : List (Bytes × CT)) (h : StructInv cs bn) : StructAgrees cs bn := by
+  have hroot : CT.InvRoot (.struct cs bn) := h
+  have hnd : NamesDistinct (CT.struct cs bn).toDV := by
+    simp only [CT.toDV, NamesDistinct, toDVFields_keys]; exact h.1
+  refine ⟨?_, ?_, ?_, ?_, ?_⟩
+  · rw [ct_length_eq]
+    exact length_agree _ hnd trivial
+  · have hk := keys_agree _ hnd
+    simp only [CT.toDV] at hk
+    obtain ⟨h1, ks', h2, h3⟩ := hk
+    refine ⟨cs.map (·.1), ks', ?_, ?_, ?_⟩
+    · simp [CT.mKeys, Function.comp_def]
+    · exact h2
+    · rw [toDVFields_keys] at h3; exact h3
+  · intro j hj
+    rw [ct_has_eq _ hroot, ← funcHas_real_dv]
+    exact has_agree _ j hj
+  · intro k hk
+    rw [ct_key_eq _ hroot, ← indexKey_real_dv]
+    have := key_agree_nonunderscore (CT.struct cs bn).toDV k hk hnd
+    simpa only [CT.toValue, CT.toDV, DV.toValue] using this
+  · have he := each_agree _ hnd
+    rw [ct_each_eq]
+    simp only [CT.toValue]
+    cases h1 : opEach Mode.real (.dv (CT.struct cs bn).toDV) with
+    | ok ps =>
+      cases h2 : opEach Mode.real (Val.ofJV (CT.struct cs bn).toDV.toValue) with
+      | ok qs =>
+        rw [h1, h2] at he
+        exact ⟨ps, qs, by simpa [opEach, Mode.view, Mode.real] using h1, rfl, he.1⟩
+      | err e => rw [h1, h2] at he; exact absurd he id
+      | panic w => rw [h1, h2] at he; exact absurd he id
+    | err e => simp [opEach, Mode.view, Mode.real, CT.toDV, DV.mEach] at h1
+    | panic w => simp [opEach, Mode.view, Mode.real, CT.toDV, DV.mEach] at h1
+
+/-- A struct whose ByName is the map assigned from its Children in order (what D.AddChild maintains,
+    with either report) is indistinguishable from its tovalue — for length, keys, has, `.k`, `.[]`
+    (hence to_entries, paths), in the sense of the method theorems — IF AND ONLY IF its member names are
+    pairwise distinct. With a repeated name `keys` (and length, `.[]`) already tell them apart: the
+    plain value is a Go map. -/
+theorem struct_indistinguishable_iff_nodup (cs bn : List (Bytes × CT)) (hidx : IdxLast cs bn) :
+    StructAgrees cs bn ↔ (cs.map (·.1)).Nodup := by
+  constructor
+  · rintro ⟨_, ⟨ks, ks', h1, h2, h3⟩, _⟩
+    have hks : ks = cs.map (·.1) := by
+      simp only [CT.mKeys, Outcome.ok.injEq, Val.arr.injEq] at h1
+      have h1' : (cs.map (·.1)).map Val.str = ks.map Val.str := by rw [← h1]; simp [Function.comp_def]
+      exact (map_str_injective _ _ h1').symm
+    rw [← hks]
+    exact h3.nodup_iff.mp (plain_keys_nodup cs bn ks' h2)
+  · intro hnd
+    exact struct_agrees_of_inv cs bn (structInv_of_nodup cs bn hidx hnd)
+
+/-- the hypothesis of `struct_indistinguishable_iff_nodup` holds for the root of every tree a decoder
+    builds, with the AddChild of /repo AND with the seeded one, forced or not -/
+theorem decoder_root_index (rep : Report) (force : Bool) (prog : List BOp) :
+    match (runDecoder rep force prog).1 with
+    | .struct cs bn => IdxLast cs bn
+    | _ => True := by
+  have h := execList_idx rep force prog Bld.newStruct idx_newStruct
+  have ha : (BOp.execList rep force prog Bld.newStruct).1.isArray = false := by
+    rw [execList_isArray]; rfl
+  simp only [runDecoder, Bld.toCT, ha, Bool.false_eq_true, if_false]
+  exact h ha
+
+/-- THE DISCHARGE: at every struct of every tree a decoder builds (any calls, any depth, forced or not,
+    finished or stopped) the decode value answers length, keys, has, `.k`, `.[]` as its tovalue does -/
+theorem decoder_every_struct_agrees (force : Bool) (prog : List BOp) :
+    CT.EveryStruct StructAgrees (runDecoder .fatalf force prog).1 :=
+  everyStruct_of_invDeep StructAgrees struct_agrees_of_inv _ (addChild_nodup force prog)
+
+/-- an UNFORCED decode cannot tell the seeded AddChild from the real one: every decoder builds the same
+    tree and stops at the same call (Errorf panics exactly like Fatalf) — the suite, which never forces
+    a decoder into a duplicate name, cannot see the change; `force` is the dimension that does -/
+theorem errorf_unforced_same (prog : List BOp) :
+    runDecoder .errorf false prog = runDecoder .fatalf false prog := by
+  simp only [runDecoder, execList_unforced]
+
+/-- seeded change S5-C08-1 (AddChild reports a duplicate name with Errorf): the forced decoder
+    `a = 1; a = 2` goes on; the struct has two children named `a`, ByName holds the second. length is 2
+    but its tovalue has one member; keys lists `a` twice; `.[]` yields both; `.a` is the second; the
+    invariant is broken and the struct is distinguishable from its tovalue. With the AddChild of /repo
+    the same forced decoder stops at the second field. -/
+theorem addChild_errorf_witness :
+    let u1 : CT := .scalar (.uint 1) none false
+    let u2 : CT := .scalar (.uint 2) none false
+    let prog : List BOp := [.u8 [97] 1, .u8 [97] 2]
+    runDecoder .errorf true prog = (.struct [([97], u1), ([97], u2)] [([97], u2)], true) ∧
+    runDecoder .fatalf true prog = (.struct [([97], u1)] [([97], u1)], false) ∧
+    (runDecoder .errorf true prog).1.mLength = .ok (.int 2) ∧
+    funcLength Mode.real (Val.ofJV (runDecoder .errorf true prog).1.toValue) = .ok (.int 1) ∧
+    (runDecoder .errorf true prog).1.mKeys = .ok (.arr [.str [97], .str [97]]) ∧
+    (runDecoder .errorf true prog).1.mKey [97] = .ok (.dv u2.toDV) ∧
+    ¬ CT.InvDeep (runDecoder .errorf true prog).1 ∧
+    ¬ StructAgrees [([97], u1), ([97], u2)] [([97], u2)] := by
+  refine ⟨rfl, rfl, rfl, rfl, rfl, rfl, ?_, ?_⟩
+  · intro h
+    have h1 : runDecoder .errorf true [.u8 [97] 1, .u8 [97] 2] =
+      (.struct [([97], .scalar (.uint 1) none false), ([97], .scalar (.uint 2) none false)] [([97], .scalar (.uint 2) none false)], true) := rfl
+    rw [h1] at h
+    simp only [CT.InvDeep, StructInv] at h
+    exact absurd h.1.1 (by decide)
+  · intro h
+    have hidx : IdxLast [([97], CT.scalar (.uint 1) none false), ([97], CT.scalar (.uint 2) none false)]
+        [([97], CT.scalar (.uint 2) none false)] := fun k => rfl
+    exact absurd ((struct_indistinguishable_iff_nodup _ _ hidx).mp h) (by decide)
+
+/-- the same at query level, through the interpreter model: on the value a forced decode would hand out
+    under the seeded change, `length`, `keys` and `[.[]]` differ from the same query on its tovalue -/
+theorem duplicate_name_query_witness :
+    let d : DV := .struct [([97], .scalar (.uint 1) none false), ([97], .scalar (.uint 2) none false)]
+    (Q.length.eval Mode.real (fun _ => none) (wrap d)).outs = [.int 2] ∧
+    (Q.length.eval Mode.real (fun _ => none) (Val.ofJV d.toValue)).outs = [.int 1] ∧
+    (Q.keys.eval Mode.real (fun _ => none) (wrap d)).outs = [.arr [.str [97], .str [97]]] ∧
+    (Q.keys.eval Mode.real (fun _ => none) (Val.ofJV d.toValue)).outs = [.arr [.str [97]]] ∧
+    ((Q.arrC .iter).eval Mode.real (fun _ => none) (wrap d)).outs
+      = [.arr [.dv (.scalar (.uint 1) none false), .dv (.scalar (.uint 2) none false)]] ∧
+    ((Q.arrC .iter).eval Mode.real (fun _ => none) (Val.ofJV d.toValue)).outs = [.arr [.int 2]] := by
+  refine ⟨rfl, rfl, rfl, rfl, rfl, rfl⟩
+
+/-- `indistinguishable_up_to_member_order` compares `d | tovalue` with the tree whose structs are put in
+    sorted order by `DV.sortFields` — an assignment into a Go map, which keeps ALL members only if their
+    names are distinct: then the sorted struct has exactly the (recursively sorted) members of `d` -/
+theorem sortFields_keeps_members (fs : List (Bytes × DV)) (h : (fs.map (·.1)).Nodup) :
+    ∃ gs, DV.sortFields (.struct fs) = .struct gs ∧ gs.Perm (fs.map (fun f => (f.1, DV.sortFields f.2))) := by
+  refine ⟨objOfList (DV.sortFieldsF fs), rfl, ?_⟩
+  rw [sortFieldsF_eq_map]
+  apply objOfList_perm
+  simpa [Function.comp_def] using h
+
+/-- … and with a repeated name it silently drops one: for such a tree the theorem would speak about
+    another value. Hence `addChild_nodup`. -/
+theorem sortFields_drops_duplicate_witness :
+    DV.sortFields (.struct [([97], .scalar (.uint 1) none false), ([97], .scalar (.uint 2) none false)])
+      = .struct [([97], .scalar (.uint 2) none false)] := rfl
+
+/-- THE PROPERTY for the trees a decoder builds, query level: for every decoder (any calls, any depth),
+    forced or not, finished or stopped, and every query of the mini-jq that names no `_` extra key: the
+    tree — its structs put in sorted order, which loses no member (`decoder_tree_names_distinct`,
+    `sortFields_keeps_members`) — and its tovalue are indistinguishable in the exact sense of
+    `indistinguishable`; the scalar hypotheses (D4, -2^63) are discharged (the leaves are plain numbers),
+    the two semantic ones (D3, known findings) remain. -/
+theorem decoder_tree_indistinguishable (ff : UInt64 → Option Bytes) (q : Q) (force : Bool) (prog : List BOp)
+    (hdoc : DocOK q)
+    (hnull : NoNullKey ff q (wrap (DV.sortFields (runDecoder .fatalf force prog).1.toDV)))
+    (hquirk : NoQuirk ff q (wrap (DV.sortFields (runDecoder .fatalf force prog).1.toDV))) :
+    ResSim (q.eval Mode.real ff (wrap (DV.sortFields (runDecoder .fatalf force prog).1.toDV)))
+      (q.eval Mode.real ff (Val.ofJV (runDecoder .fatalf force prog).1.toValue)) :=
+  indistinguishable_up_to_member_order ff q _ hdoc (runDecoder_scalarsOK .fatalf force prog) hnull hquirk
+
+/-- a decoder with nested structs, a forced Errorf, fields after it, a name equal to an extra key, an
+    empty name, a duplicate attempt and a Remove: the hypotheses of the theorems above are met by a
+    non-trivial tree, forced and unforced -/
+example :
+    let prog : List BOp := [.u8 [97] 1, .struct [95, 102, 111, 114, 109, 97, 116] [.val [] 2, .errorf, .u8 [98] 3],
+      .remove [97], .u8 [97] 4, .assertU8 [99] 5 6, .u8 [97] 7, .u8 [100] 8]
+    (runDecoder .fatalf true prog).2 = false ∧ (runDecoder .fatalf false prog).2 = false ∧
+    (runDecoder .fatalf true prog).1.mKeys
+      = .ok (.arr [.str [95, 102, 111, 114, 109, 97, 116], .str [97], .str [99]]) ∧
+    (runDecoder .fatalf false prog).1.mKeys = .ok (.arr [.str [97], .str [95, 102, 111, 114, 109, 97, 116]]) ∧
+    CT.InvRoot (runDecoder .fatalf true prog).1 :=
+  ⟨rfl, rfl, rfl, rfl, invRoot_of_deep _ (addChild_nodup true _)⟩
+
+/-- D.Format: the members of a sub-decoder are merged one AddChild at a time — the merge stops at the
+    first name the struct already has, what was merged before stays -/
+example :
+    (runDecoder .fatalf true [.u8 [97] 1, .inline [.u8 [98] 2, .u8 [97] 3, .u8 [99] 4]]).1.mKeys
+      = .ok (.arr [.str [97], .str [98]]) ∧
+    (runDecoder .fatalf true [.u8 [97] 1, .inline [.u8 [98] 2, .u8 [97] 3, .u8 [99] 4]]).2 = false :=
+  ⟨rfl, rfl⟩
+
+example : IdxLast [([97], CT.scalar (.uint 1) none false)] [([97], CT.scalar (.uint 1) none false)] := fun _ => rfl
 
 /-! ### the hypotheses are satisfiable by non-trivial values -/
 
